@@ -37,3 +37,7 @@ ENTRY["units"] += ["structural"]
 ENTRY["trusted_base"] += [
     "slice structural — modelled, not verified: Pattern::contextual, Pattern::try_new, single_matcher, is_single_node, convert_node_to_pattern, extract_var_from_node (matcher/pattern.rs), KindMatcher::try_new (kind.rs), find_node (matcher.rs: first hit of dfs(); dfs() = pre-order is C19's pre_eq_preorder); the private root_kind is observed through Pattern::potential_kinds; id_for_node_kind and the set of kinds with an empty name are tables of the grammar handed to the model",
 ]
+
+
+# round 11: the unit `injection` also runs under this property
+ENTRY["units"] += ["injection"]
